@@ -20,6 +20,8 @@
 //     read D+1 the blinding secret, reads D+2..2D+1 the blinding column (entry 0
 //     overwritten); every read is (bits(q)+128+7)/8 bytes, little endian, reduced mod q.
 //     The reads after that belong to the sigma-protocol provers.
+//   - Access structure: cfg.AC, or per party cfg.ACs[id] when given (each party's own, independently
+//     constructed object for the same policy); the party list is cfg.AC.Shareholders().
 //   - Session contexts: cfg.Ctxs if given (the driver clones nothing: one context per
 //     party, consumed), otherwise the real session setup is run through
 //     verif/harness/internal/drive/session with Prop = cfg.Prop+"/session" and the same
@@ -74,13 +76,16 @@ const Proto = "gennaro"
 
 // Config of one run.
 type Config[E algebra.PrimeGroupElement[E, S], S algebra.PrimeFieldElement[S]] struct {
-	Seed     int64
-	Prop     string                // property id the tapes are keyed by, e.g. "C03"
-	Labels   map[sharing.ID]string // tape label per party, default "a"
-	Hook     drive.Hook            // nil = honest delivery
-	Group    algebra.PrimeGroup[E, S]
-	AC       accessstructures.Monotone // parties = AC.Shareholders()
-	Compiler compiler.Name             // fiatshamir.Name, fischlin.Name, randfischlin.Name
+	Seed   int64
+	Prop   string                // property id the tapes are keyed by, e.g. "C03"
+	Labels map[sharing.ID]string // tape label per party, default "a"
+	Hook   drive.Hook            // nil = honest delivery
+	Group  algebra.PrimeGroup[E, S]
+	AC     accessstructures.Monotone // parties = AC.Shareholders()
+	// ACs, if set, gives a party its OWN access-structure object (independently constructed for the
+	// same policy, as every party does in a deployment); parties without an entry use AC.
+	ACs      map[sharing.ID]accessstructures.Monotone
+	Compiler compiler.Name // fiatshamir.Name, fischlin.Name, randfischlin.Name
 	Ctxs     map[sharing.ID]*rsess.Context
 }
 
@@ -180,6 +185,13 @@ func freeze[M any](m map[sharing.ID]M) ds.Map[sharing.ID, M] {
 	return h.Freeze()
 }
 
+func acOf(ac accessstructures.Monotone, acs map[sharing.ID]accessstructures.Monotone, id sharing.ID) accessstructures.Monotone {
+	if a, ok := acs[id]; ok && a != nil {
+		return a
+	}
+	return ac
+}
+
 func label(labels map[sharing.ID]string, id sharing.ID) string {
 	if l, ok := labels[id]; ok && l != "" {
 		return l
@@ -221,7 +233,7 @@ func RunFull[E algebra.PrimeGroupElement[E, S], S algebra.PrimeFieldElement[S]](
 			if ctx == nil {
 				return fmt.Errorf("no session context for party %d", uint64(id))
 			}
-			p, err := rg.NewParticipant(ctx, cfg.Group, cfg.AC, cfg.Compiler, &LockedReader{R: tape})
+			p, err := rg.NewParticipant(ctx, cfg.Group, acOf(cfg.AC, cfg.ACs, id), cfg.Compiler, &LockedReader{R: tape})
 			if err != nil {
 				return err
 			}
